@@ -7,6 +7,7 @@ The scope names and proximity weights come from `I2N.Extracted.Pool` (regenerate
 if a literal moves, these proofs stop checking.
 -/
 import I2N.Lemmas.Pool
+import I2N.Lemmas.PoolListing
 namespace I2N.Props.C13
 open I2N.Pool
 
@@ -647,5 +648,52 @@ empty, so a state held only by a *farther* permitted mirror is listed although t
 example : (showOp exEnv ⟨[], fun s => if s.net == "" then [] else ["s"], fun _ => true⟩ ["swarm", "shared"] exLocs).1 = ["s"] ∧
     getOp exEnv ⟨[], fun s => if s.net == "" then [] else ["s"], fun _ => true⟩ ["swarm", "shared"] "s" exLocs
       = [.localShow, .poolShow ⟨"", "/shared"⟩] := by decide
+
+/-! ## the transport's directory listing (`QCOW2ImageTransfer.show`)
+
+What the pools report as the states of a mirror is computed from a raw directory listing, which also holds lock files
+(`<state>.qcow2.lock`, left behind by every locked transfer), the image sub-directories of a vm and anything else. -/
+
+/-- a name is reported for a mirror exactly if some directory entry maps to it -/
+theorem transfer_show_exact (isImage : Bool) (listing : List String) (x : String) :
+    x ∈ transferShow isImage listing ↔ ∃ p ∈ listing, entryName (showFormat isImage) p = x := by
+  simp [transferShow]
+
+/-- the state file of a state maps to the state: `<s>.qcow2 ↦ s`, `<s>.state ↦ s` (names without a dot; dotted names of
+the shipped suite are covered by the examples below) -/
+theorem state_file_listed (isImage : Bool) (s : String) (hs : '.' ∉ s.toList) :
+    entryName (showFormat isImage) (s ++ showFormat isImage) = s := by
+  cases isImage
+  · rw [show showFormat false = ".state" from rfl, entryName_append ".state" s ".state" '.' ['s','t','a','t','e'] (by decide) hs]
+    have : removeAllF ".state".toList ".state".length ".state".toList = [] := by decide
+    rw [this]; simp
+  · rw [show showFormat true = ".qcow2" from rfl, entryName_append ".qcow2" s ".qcow2" '.' ['q','c','o','w','2'] (by decide) hs]
+    have : removeAllF ".qcow2".toList ".qcow2".length ".qcow2".toList = [] := by decide
+    rw [this]; simp
+
+/-- the lock file a transfer leaves next to a state file never counts as the state: `<s>.qcow2.lock ↦ <s>.lock ≠ s` -/
+theorem lock_file_not_a_state (isImage : Bool) (s : String) (hs : '.' ∉ s.toList) :
+    entryName (showFormat isImage) (s ++ (showFormat isImage ++ ".lock")) = s ++ ".lock" ∧
+    entryName (showFormat isImage) (s ++ (showFormat isImage ++ ".lock")) ≠ s := by
+  have key : entryName (showFormat isImage) (s ++ (showFormat isImage ++ ".lock")) = s ++ ".lock" := by
+    cases isImage
+    · rw [show showFormat false = ".state" from rfl,
+        entryName_append ".state" s (".state" ++ ".lock") '.' ['s','t','a','t','e'] (by decide) hs]
+      have : removeAllF ".state".toList (".state" ++ ".lock").length (".state" ++ ".lock").toList = ".lock".toList := by decide
+      rw [this]; simp
+    · rw [show showFormat true = ".qcow2" from rfl,
+        entryName_append ".qcow2" s (".qcow2" ++ ".lock") '.' ['q','c','o','w','2'] (by decide) hs]
+      have : removeAllF ".qcow2".toList (".qcow2" ++ ".lock").length (".qcow2" ++ ".lock").toList = ".lock".toList := by decide
+      rw [this]; simp
+  refine ⟨key, ?_⟩
+  rw [key]
+  intro h
+  have := congrArg String.length h
+  simp at this
+
+example : transferShow true ["launch.qcow2", "launch.qcow2.lock", "b.qcow2.lock", "guisetup.noop.qcow2"]
+    = ["launch", "launch.lock", "b.lock", "guisetup.noop"] := by decide
+example : transferShow false ["image1", "launch.state", "launch.state.lock"] = ["image1", "launch", "launch.lock"] := by decide
+example : '.' ∉ "launch".toList := by decide
 
 end I2N.Props.C13
